@@ -21,6 +21,15 @@ Qed.
 
 Definition locks_free (bl : blocker) (l : list key) : Prop := forall k, In k l -> bl k = false.
 
+Lemma locks_free_app bl a b : locks_free bl a -> locks_free bl b -> locks_free bl (a ++ b).
+Proof. intros A B k I. apply in_app_or in I. destruct I; auto. Qed.
+
+Lemma locks_free_prefix bl ks : locks_free bl (free_prefix bl ks).
+Proof. intros k I. eapply free_prefix_free; eauto. Qed.
+
+Lemma locks_free_all bl ks : existsb bl ks = false -> locks_free bl ks.
+Proof. intros E k I. eapply existsb_false_all; eauto. Qed.
+
 Lemma update_row_locks bl sch en sets inc s kr :
   locks_free bl (w_locks s) ->
   match update_row bl sch en sets inc s kr with
@@ -31,10 +40,10 @@ Proof.
   intro F. unfold update_row. destruct kr as [k old].
   destruct (apply_sets en sets old) as [vals|]; auto.
   destruct (row_eqb vals old); auto.
-  destruct (bl (key_of sch vals)) eqn:B; auto.
-  assert (F' : locks_free bl (w_locks s ++ [key_of sch vals])).
-  { intros k0 I. apply in_app_or in I. destruct I as [I|[<-|[]]]; auto. }
-  destruct (negb _ && _); cbn; auto.
+  destruct (existsb bl (row_locks sch vals)) eqn:B.
+  - apply locks_free_app; auto. apply locks_free_prefix.
+  - pose proof (locks_free_app _ _ _ F (locks_free_all _ _ B)) as F'.
+    destruct (_ || _); cbn; auto.
 Qed.
 
 Lemma insert_row_locks bl sch en mode idx ondup s es :
@@ -49,13 +58,19 @@ Proof.
             fill_defaults (s_cols sch) g) as [vals0|]; auto.
   destruct (gen_auto (s_cols sch) vals0 (w_auto s) (w_last s)) as [[vals1 auto1] last1].
   destruct (store_all (s_cols sch) vals1 auto1) as [auto2 [vals|]]; auto.
-  destruct (bl (key_of sch vals)) eqn:B; auto.
-  assert (F' : locks_free bl (w_locks s ++ [key_of sch vals])).
-  { intros k0 I. apply in_app_or in I. destruct I as [I|[<-|[]]]; auto. }
-  destruct (lookup (key_of sch vals) (w_t s)) as [old|]; [|cbn; auto].
-  destruct ondup as [|x ondup].
-  - destruct mode; cbn; auto.
-  - apply update_row_locks. exact F'.
+  destruct (existsb bl (row_locks sch vals)) eqn:B.
+  - apply locks_free_app; auto. apply locks_free_prefix.
+  - pose proof (locks_free_app _ _ _ F (locks_free_all _ _ B)) as F'.
+    fold (in_the_way sch vals (w_t s)).
+    destruct (in_the_way sch vals (w_t s)) as [|[ko old] more]; [cbn; auto|].
+    destruct ondup as [|x ondup].
+    + destruct mode; cbn [w_locks]; auto.
+      destruct (existsb bl (keys ((ko, old) :: more))) eqn:B2.
+      * apply locks_free_app; auto. apply locks_free_prefix.
+      * cbn [w_locks]. apply locks_free_app; auto. now apply locks_free_all.
+    + destruct (bl ko) eqn:B3; auto.
+      apply update_row_locks. cbn [w_locks]. apply locks_free_app; auto.
+      intros k0 [<-|[]]; auto.
 Qed.
 
 Lemma wfold_locks {A} bl (f : wstate -> A -> wres) l :
@@ -116,13 +131,8 @@ Lemma update_row_changes bl sch en sets inc t0 s k old s' :
   In k (w_locks s) -> changes_locked t0 s ->
   update_row bl sch en sets inc s (k, old) = WOk s' -> changes_locked t0 s'.
 Proof.
-  intros Ik C. unfold update_row.
-  destruct (apply_sets en sets old) as [vals|]; [|discriminate].
-  destruct (row_eqb vals old); [intro H; inversion H; now subst|].
-  destruct (bl (key_of sch vals)); [discriminate|].
-  destruct (negb (key_eqb (key_of sch vals) k) && mem (key_of sch vals) (w_t s)) eqn:D; [discriminate|].
-  apply free_after_remove in D. intro H; inversion H; subst; cbn. clear H.
-  intros key N. cbn in N. apply in_or_app.
+  intros Ik C H. apply update_row_ok in H. destruct H as [->|[vals [_ [_ [_ [D [_ ->]]]]]]]; auto.
+  intros key N. cbn in N. cbn [w_locks]. apply in_or_app.
   destruct (key_eq_dec key k) as [->|NK]; [now left|].
   destruct (key_eq_dec key (key_of sch vals)) as [->|NK']; [right; now left|].
   left. apply C. intro E. apply N. rewrite <- E.
@@ -144,34 +154,47 @@ Proof.
             fill_defaults (s_cols sch) g) as [vals0|]; [|discriminate].
   destruct (gen_auto (s_cols sch) vals0 (w_auto s) (w_last s)) as [[vals1 auto1] last1].
   destruct (store_all (s_cols sch) vals1 auto1) as [auto2 [vals|]]; [|discriminate].
-  destruct (bl (key_of sch vals)); [discriminate|].
-  set (k := key_of sch vals).
-  assert (C1 : changes_locked t0 {| w_t := w_t s; w_auto := auto2; w_aff := w_aff s; w_last := last1;
-                                    w_locks := w_locks s ++ [k] |})
-    by (now apply changes_locked_more).
-  destruct (lookup k (w_t s)) as [old|] eqn:L.
-  - destruct ondup as [|x ondup].
-    + destruct mode; intro H; inversion H; subst; auto. clear H.
-      intros key N. cbn in *. apply in_or_app.
-      destruct (key_eq_dec key k) as [->|NK]; [right; now left|]. left. apply C.
-      intro E. apply N. rewrite <- E. rewrite lookup_put by apply lookup_remove_eq.
-      keq key k; [congruence|]. apply lookup_remove_neq; congruence.
-    + apply update_row_changes; auto. cbn. apply in_or_app. right. now left.
+  destruct (existsb bl (row_locks sch vals)); [discriminate|].
+  fold (in_the_way sch vals (w_t s)).
+  pose proof (replace_target_free sch vals (w_t s)) as RF.
+  pose proof (in_the_way_nil sch vals (w_t s)) as NF.
+  set (k := key_of sch vals) in *.
+  assert (Kreq : In k (row_locks sch vals)) by (now left).
+  destruct (in_the_way sch vals (w_t s)) as [|[ko old] more].
   - intro H; inversion H; subst. clear H.
     intros key N. cbn in *. apply in_or_app.
-    destruct (key_eq_dec key k) as [->|NK]; [right; now left|]. left. apply C.
+    destruct (key_eq_dec key k) as [->|NK]; [right; auto|]. left. apply C.
     intro E. apply N. rewrite <- E. rewrite lookup_put by auto. keq key k; [congruence|auto].
+  - destruct ondup as [|x ondup].
+    + destruct mode; try discriminate.
+      * intro H; inversion H; subst. now apply changes_locked_more.
+      * destruct (existsb bl (keys ((ko, old) :: more))); [discriminate|].
+        intro H; inversion H; subst. clear H.
+        intros key N. cbn [w_t w_locks] in *. apply in_or_app.
+        destruct (key_eq_dec key k) as [->|NK]; [left; apply in_or_app; now right|].
+        destruct (existsb (key_eqb key) (keys ((ko, old) :: more))) eqn:EK.
+        -- right. apply existsb_exists in EK. destruct EK as [k1 [I1 E1]].
+           apply key_eqb_eq in E1. now subst.
+        -- left. apply in_or_app. left. apply C. intro E. apply N. rewrite <- E.
+           rewrite lookup_put by exact RF. keq key k; [congruence|].
+           unfold remove_keys.
+           rewrite (lookup_filter_key (fun k0 => negb (existsb (key_eqb k0) (keys ((ko, old) :: more))))).
+           now rewrite EK.
+    + destruct (bl ko); [discriminate|].
+      apply update_row_changes.
+      * cbn. apply in_or_app. right. now left.
+      * apply (changes_locked_more t0
+                 {| w_t := w_t s; w_auto := w_auto s; w_aff := w_aff s; w_last := w_last s;
+                    w_locks := w_locks s ++ row_locks sch vals |} [ko]); auto.
+        now apply (changes_locked_more t0 s (row_locks sch vals)).
 Qed.
 
 Lemma update_row_locks_grow bl sch en sets inc s kr s' k :
   update_row bl sch en sets inc s kr = WOk s' -> In k (w_locks s) -> In k (w_locks s').
 Proof.
-  unfold update_row. destruct kr as [k0 old].
-  destruct (apply_sets en sets old) as [vals|]; [|discriminate].
-  destruct (row_eqb vals old); [intro H; inversion H; now subst|].
-  destruct (bl (key_of sch vals)); [discriminate|].
-  destruct (negb _ && _); [discriminate|].
-  intro H; inversion H; subst; cbn. intro I. apply in_or_app. now left.
+  destruct kr as [k0 old]. intro H. apply update_row_ok in H.
+  destruct H as [->|[vals [_ [_ [_ [_ [_ ->]]]]]]]; auto.
+  cbn. intro I. apply in_or_app. now left.
 Qed.
 
 Theorem statement_changes_only_locked_rows bl sch st s args k :
@@ -576,7 +599,7 @@ Definition ca := [x61].
 Definition cb := [x62].
 Definition icol n := {| c_name := n; c_ty := TInt MIN_I64 MAX_I64; c_notnull := true;
                         c_default := None; c_auto := false |}.
-Definition sch : schema := {| s_cols := [icol cid; icol ca; icol cb]; s_pk := [0%nat] |}.
+Definition sch : schema := {| s_cols := [icol cid; icol ca; icol cb]; s_pk := [0%nat]; s_uniq := [] |}.
 Definition d0 : dbst :=
   {| d_rows := [([VInt 1], [VInt 1; VInt 5; VInt 0]); ([VInt 2], [VInt 2; VInt 0; VInt 5])];
      d_auto := 1; d_txs := [] |}.
